@@ -218,14 +218,17 @@ func (s *shape) body() string {
 	return sb.String()
 }
 
-const pageW = 20 // px: two Ahem glyphs
+const pageW = 20  // px: two Ahem glyphs
+const pageWm = 30 // px: width of the pages named m
 
 // flowPrelude is the style sheet of family (ii): page content box pageW x h px below a 10px top
 // margin that holds the counter margin box.
 func flowPrelude(h int, atKeyword string, extra string) string {
-	return fmt.Sprintf(`<style>@page{size:%dpx %dpx;margin:10px 0 0 0;%s{content:counter(page) "/" counter(pages)}}`+
+	// pages named m are 10px wider (the one-word lines break the same way): the width of every
+	// page must be the one its name selects
+	return fmt.Sprintf(`<style>@page{size:%dpx %dpx;margin:10px 0 0 0;%s{content:counter(page) "/" counter(pages)}}@page m{size:%dpx %dpx}`+
 		`html,body{margin:0;font-family:ahem;font-size:10px;line-height:1;orphans:1;widows:1}p,div{margin:0}%s</style>`,
-		pageW, h+10, atKeyword, extra)
+		pageW, h+10, atKeyword, pageWm, h+10, extra)
 }
 
 func sortedKeys(m map[string]bool) []string {
